@@ -698,7 +698,7 @@ func (p *parent) merge(c *chunkResult, base int, countCases bool) {
 	}
 	for _, s := range c.Samples {
 		ph, _ := s["phase"].(string)
-		if len(p.samples[ph]) < 3 {
+		if len(p.samples[ph]) < 2 {
 			p.samples[ph] = append(p.samples[ph], s)
 		}
 	}
@@ -1302,7 +1302,7 @@ func main() {
 	run.Set("max_decode_input", p.maxNsDesc)
 	run.Set("max_alloc_fraction_of_budget", float64(int(p.maxBudget*1000))/1000)
 	run.Set("max_alloc_bytes_per_input_byte_inputs_4KiB_up", float64(int(p.maxPerB*100))/100)
-	for _, ph := range []string{"roundtrip", "mutated", "death"} {
+	for _, ph := range []string{"death", "roundtrip", "mutated"} {
 		for _, s := range p.samples[ph] {
 			run.Sample(s)
 		}
